@@ -237,6 +237,9 @@ class XmlGenerator:
     def xml_from_dict(self, tree, is_root=False):
         """ Transform an intermediate dict representation into XML, including post-processing.
         """
+        # always start with clean counters: a previous conversion that failed midway must not
+        # influence the numbering (e.g. of attachments) of this one
+        self.ids.reset()
         xml = self.xml_from_tree(tree)
         if is_root:
             xml = self.add_meta(self.wrap_akn(xml))
